@@ -308,6 +308,14 @@ class ExprMixin:
             raise Unsupported("slice of " + obj.kind)
         n = self.llen(s, obj.z)
         res = []
+        if sl.step is not None and sl.lower is None and sl.upper is None and \
+                isinstance(sl.step, ast.Constant) and isinstance(sl.step.value, int) and sl.step.value > 0:
+            # l[::k]: item j is l[k * j], length ceil(n / k)
+            k = sl.step.value
+            c = self.lcontent(s, obj.z, obj.x)
+            j = z3.Int("j!sl")
+            newc = self.mk_array(j, z3.Select(c, k * j), c)
+            return [(s, self.new_list(s, obj.x, newc, (n + (k - 1)) / k))]
         for s1, lo, hi in self.slice_bounds(s, sl, n):
             c = self.lcontent(s1, obj.z, obj.x)
             j = z3.Int("j!sl")
